@@ -244,6 +244,15 @@ def check_invariants(model, mode, hist):
         fin = np.isfinite(ref_tot)
         rt = np.where(fin, ref_tot, 0.0)
         sc = np.maximum(np.abs(rt).max(axis=1, keepdims=True), 1e-9 * max(np.abs(rt).max(), 1e-300))
+        if st["chk"]:
+            # check_partials leaves forward-difference values (absolute step 1e-6) in sub-Jacobians that were declared constant and
+            # the framework never restores them (DESIGN section 2): their round-off error is ~ eps |f_i| / step per entry of row i.
+            # Rows whose own scale is below that noise cannot be judged after check_partials.
+            # (the perturbed input x + step is itself rounded to eps |x|, so the slope also carries a relative error eps |x| / step)
+            fo = np.where(np.isfinite(ref_out), np.abs(ref_out), 0.0).reshape(-1, 1)
+            xs = max(float(np.abs(np.asarray(p.get_val(w), dtype=float)).max()) for w in model.wrt)
+            if fo.shape[0] == sc.shape[0]:
+                sc = np.maximum(sc, 50 * 2.2e-16 * (fo + sc * xs) / 1e-6 / max(tol, 1e-9))
         e = (np.abs(np.where(fin, t, 0.0) - rt) / sc).max() if np.array_equal(np.isfinite(t), fin) else np.inf
         if not e <= max(tol, 1e-9):
             i, j = np.unravel_index(np.argmax(np.abs(np.where(fin, t, 0.0) - rt) / sc), t.shape)
